@@ -43,6 +43,27 @@ def production(ctx, quick, rnd):
     from ecdsa import curves, SigningKey, util
     events, meta = [], []
     cl = list(curves.curves)[:17]
+    from ecdsa import VerifyingKey as VK, ellipticcurve as ecm
+    import pickle
+
+    def own_curve_object(key):
+        c_ = key.curve
+        cf2 = ecm.CurveFp(c_.curve.p(), c_.curve.a(), c_.curve.b(), c_.curve.cofactor())
+        pt = key.pubkey.point
+        z = 3
+        p_ = c_.curve.p()
+        k2 = VK.from_public_point(ecm.PointJacobi(cf2, pt.x() * z * z % p_, pt.y() * z * z * z % p_, z, c_.order), c_, hashlib.sha256)
+        k2.precompute(lazy=True)
+        return k2
+
+    def precomputed(key):
+        k2 = VK.from_string(key.to_string(), key.curve, hashlib.sha256)
+        k2.precompute()
+        return k2
+    # the same key in several equivalent object forms: the outcome may not depend on the form
+    forms = [lambda key: key, precomputed, own_curve_object, lambda key: pickle.loads(pickle.dumps(key)),
+             lambda key: VK.from_public_point(ecm.Point(key.curve.curve, key.pubkey.point.x(), key.pubkey.point.y(), key.curve.order),
+                                              key.curve, hashlib.sha256)]
     for ci, c in enumerate(cl):
         n = c.order
         l = c.baselen
@@ -83,7 +104,7 @@ def production(ctx, quick, rnd):
                             sig = util.sigencode_der(rr, ss, n)
                             dec = util.sigdecode_der
                         try:
-                            ok = key.verify_digest(sig, digest, sigdecode=dec, allow_truncate=True)
+                            ok = forms[len(events) % len(forms)](key).verify_digest(sig, digest, sigdecode=dec, allow_truncate=True)
                             out = "True" if ok is True else "returned %r" % (ok,)
                         except BaseException as ex:  # noqa
                             out = type(ex).__name__
@@ -117,6 +138,58 @@ def production(ctx, quick, rnd):
                     out = type(ex).__name__
                 events.append({"cls": "long-digest-no-truncate", "n": n2l(n), "r": n2l(r), "s": n2l(s), "out": out, "der": []})
                 meta.append((c.name, "long-digest-no-truncate", d, k, "", r, s, "string"))
+    # public keys with a special shape: x(Q) = 0, i.e. Q = (0, +-sqrt(b)).  Their private scalar is unknown, so genuine
+    # signatures are constructed algebraically: pick u1, u2, R = u1 G + u2 Q (harness arithmetic, inputs only),
+    # r = x(R) mod n, s = r / u2, e = u1 s; u1 = 0 gives the digest e = 0.  Offered through every key object form.
+    from ecdsa import VerifyingKey, ellipticcurve as ec
+    for c in cl:
+        p_, n = c.curve.p(), c.order
+        a_, b_ = c.curve.a(), c.curve.b()
+        if p_ % 4 != 3 or n.bit_length() != 8 * c.baselen:
+            continue
+        y0 = pow(b_, (p_ + 1) // 4, p_)
+        if y0 * y0 % p_ != b_ % p_:
+            continue
+        G = (c.generator.x(), c.generator.y())
+        for Q in ((0, y0), (0, p_ - y0)):
+            for form in range(4):
+                try:
+                    if form == 3:
+                        vk = VerifyingKey.from_public_point(ec.Point(c.curve, Q[0], Q[1], n), c, hashlib.sha256)
+                    elif form == 2:
+                        cf2 = ec.CurveFp(p_, a_, b_, c.curve.cofactor())
+                        vk = VerifyingKey.from_public_point(ec.PointJacobi(cf2, Q[0], Q[1] * 8 % p_, 2, n), c, hashlib.sha256)
+                        vk.precompute(lazy=True)
+                    else:
+                        vk = VerifyingKey.from_string(b"\x04" + Q[0].to_bytes(c.baselen, "big") + Q[1].to_bytes(c.baselen, "big"),
+                                                      c, hashlib.sha256)
+                        if form == 1:
+                            vk.precompute()
+                except BaseException as ex:  # noqa
+                    events.append({"cls": "genuine", "n": n2l(n), "r": n2l(1), "s": n2l(1),
+                                   "out": "constructing the key Q=(0, sqrt b) raised " + type(ex).__name__, "der": []})
+                    meta.append((c.name, "x0-key form %d" % form, 0, 0, "", 1, 1, "string"))
+                    continue
+                for u1 in (0, rnd.randrange(1, n)):
+                    u2 = rnd.randrange(1, n)
+                    R = toy.t_add(toy.t_mul(u1, G, p_, a_), toy.t_mul(u2, Q, p_, a_), p_, a_)
+                    r = R[0] % n
+                    if R is None or r == 0:
+                        continue
+                    s = r * pow(u2, -1, n) % n
+                    e = u1 * s % n
+                    dg = e.to_bytes(c.baselen, "big")
+                    for cls, rr, ss in (("genuine", r, s), ("low-s-twin", r, n - s), ("r-altered", (r % (n - 1)) + 1, s)):
+                        sig = rr.to_bytes(c.baselen, "big") + ss.to_bytes(c.baselen, "big")
+                        try:
+                            ok = vk.verify_digest(sig, dg, sigdecode=util.sigdecode_string, allow_truncate=True)
+                            out = "True" if ok is True else "returned %r" % (ok,)
+                        except BaseException as ex:  # noqa
+                            out = type(ex).__name__
+                        events.append({"cls": cls, "n": n2l(n), "r": n2l(rr), "s": n2l(ss), "out": out, "der": []})
+                        meta.append((c.name, "%s, key Q=(0,%s sqrt b) form %d, u1=%d" % (cls, "+" if Q[1] == y0 else "-", form, u1),
+                                     0, 0, dg.hex(), rr, ss, "string"))
+                        ctx.nontrivial.add((c.name, "x0", form, rr, ss))
     bad, st = core.validate_traces(ctx.workdir, "ProdVerifyTrace", PROD_CFG, events, per_shard_min=300)
     ctx.add_stats(st)
     ctx.traces += len(events)
@@ -160,7 +233,13 @@ def run(ctx):
         ecdsa, curve = ecdsadrv.setup(cid)
         from ecdsa import SigningKey, util
         items = []
-        sk = SigningKey.from_secret_exponent(keys[0], curve, hashfunc=ecdsadrv.IdHash)
+        try:
+            sk = SigningKey.from_secret_exponent(keys[0], curve, hashfunc=ecdsadrv.IdHash)
+        except BaseException as ex:  # noqa
+            ctx.violation("curve %s: constructing the key pair of the valid private scalar %d raised %s, so none of its "
+                          "valid signatures can be accepted" % (cid, keys[0], type(ex).__name__),
+                          {"curve": cid, "d": keys[0], "exception": type(ex).__name__})
+            continue
         for k in (2, 3, 5, n - 2):
             try:
                 r, s = sk.sign_digest(digests[1], k=k, sigencode=lambda r_, s_, o: (r_, s_), allow_truncate=True)
